@@ -8,26 +8,28 @@ Property theorems only.  Model: `OV.Model.C01Script`, `C01Graph`, `C01Convert` (
 
 What is proved for ALL programs of the modelled language (straight-line code, tuple / parallel
 assignment, `if`/`else`, `for`, `while`, trailing `break`, nested to any depth, any number of
-parameters):
+parameters) — the model follows /repo including the fixes 3b56caa (returned input) and cbb81e7 (duplicate
+subgraph outputs):
 
 * `fresh_not_used`, `generate_unique_total` — `_generate_unique_name` always returns, never a used name, and
                                      records it;
 * `convert_single_assignment`     — every name defined anywhere in the emitted body (inputs, node outputs,
                                      Loop-body inputs, at every depth) is defined exactly once; hence no
                                      subgraph redefines an outer name;
-* `convert_wf_partial`            — … together with scoped definition-before-use (outer-scope visibility,
-                                     subgraph outputs produced inside, arities), visibility and pairwise
-                                     distinctness of the function outputs: every clause of the property's
-                                     structural part except the two that are false for the code as it is;
-* `convert_wf`                    — the whole of `wfGraph` (adding "no graph input is returned directly") under
-                                     the hypothesis that no tensor parameter is re-assigned;
+* `convert_wf`                    — **the whole structural property**: the emitted body passes `wfGraph` — single
+                                     assignment, scoped definition-before-use with outer-scope visibility,
+                                     subgraph outputs produced inside their subgraph *and pairwise distinct*,
+                                     matching arities, function outputs visible, pairwise distinct, and none of
+                                     them a graph input.  Only hypothesis: Python's rule that parameter names
+                                     are distinct;
 * `wfGraph_sound`                  — the executable checker `wfGraph` (run by the harness on the protos the
                                      REAL converter emitted, parsed back into `Graph`) implies the
-                                     declarative well-formedness clauses.
+                                     declarative clauses.
 
-What is refuted (reproduced on the real code, see known_findings.d): `convert_wf_full_refuted` (a graph
-input returned directly, C01-D26), `subgraph_outputs_distinct_refuted` (C01-D30), `nested_param_not_fresh_witness`
-(D19).
+Before the two fixes `convert_wf` needed the hypothesis that no parameter is re-assigned and the
+subgraph-distinctness clause was false (findings C01-D26, C01-D30); their witnesses are now positive
+regression examples below (`d26`, `d30`).  Still refuted for the code as it is: `nested_param_not_fresh_witness`
+(D19, nested `@graph` functions, outside the model).
 -/
 namespace OV.Props.C02
 open OV.C01
@@ -71,51 +73,37 @@ def demo : Func :=
 example : (convert demo).toOption.isSome = true := by decide +kernel
 example : (tensorParams demo.params).Nodup := by decide
 
-/-- **Well-formedness of everything the converter emits, except the one clause that is false.**  For every
-accepted program of the modelled language (straight-line code, tuple / parallel assignment, `if`, `for`,
-`while`, trailing `break`, nested to any depth):
+/-- **`convert_wf`: every accepted program yields a well-formed function body.**  For every program of the
+modelled language that the converter accepts (straight-line code, tuple / parallel assignment, `if`, `for`,
+`while`, trailing `break`, nested to any depth), the emitted body passes the whole decision procedure
+`wfGraph`:
 1. every name is defined exactly once across the graph and all nested subgraphs (so no subgraph redefines
    an outer name);
 2. scoped definition-before-use: every node input, at every depth, is a function input, an earlier output
    of the same graph, or a value of an enclosing graph defined before the enclosing If/Loop; every
-   If-branch / Loop-body output is produced by a node *of that subgraph*; branch and body arities match
-   (`wfNodes`);
-3. every function output is visible at the end of the body;
-4. function outputs are pairwise distinct.
-`_partial`: the remaining clause of the property, "no graph input is returned directly", does not hold for
-the code as it is (`convert_wf_full_refuted`, finding C01-D26), and distinctness of *subgraph* outputs does
-not either (`subgraph_outputs_distinct_refuted`, C01-D30). -/
-theorem convert_wf_partial (f : Func) (g : Graph) (h : convert f = .ok g)
-    (hparams : (tensorParams f.params).Nodup) :
-    g.allDefs.Nodup ∧ wfNodes g.inputs g.nodes = true
-      ∧ (∀ o, o ∈ g.outputs → o ∈ g.inputs ++ topDefs g.nodes) ∧ g.outputs.Nodup :=
-  ⟨convert_allDefs_nodup h hparams, (convert_scoped_ok h).1, (convert_scoped_ok h).2,
-    convert_outputs_nodup h⟩
-
-/-- **`convert_wf`: every accepted program yields a well-formed graph — under the one hypothesis the proof
-forces.**  If no tensor parameter is re-assigned in the body (`ParamsNotReassigned`; Python's rule that
-parameter names are distinct is the other hypothesis), the emitted function body passes the whole decision
-procedure `wfGraph`: single assignment across all nested scopes, scoped definition-before-use with
-outer-scope visibility, subgraph outputs produced inside, outputs visible and pairwise distinct, **and no
-graph input returned directly**.  Without the hypothesis the last clause fails: `convert_wf_full_refuted`. -/
+   If-branch / Loop-body output is produced by a node *of that subgraph*; the outputs of each subgraph are
+   pairwise distinct; branch and body arities match (`wfNodes`);
+3. every function output is visible at the end of the body, outputs are pairwise distinct, and no graph
+   input is returned directly.
+The only hypothesis is Python's own rule that parameter names are distinct. -/
 theorem convert_wf (f : Func) (g : Graph) (h : convert f = .ok g)
-    (hnames : (f.params.map Param.name).Nodup) (hna : ParamsNotReassigned f) : wfGraph g = true :=
-  convert_wfGraph h hnames hna
+    (hnames : (f.params.map Param.name).Nodup) : wfGraph g = true :=
+  convert_wfGraph h hnames
 
-/-- Non-vacuity of `convert_wf`: `demo` (an `if` inside a `for`) satisfies both hypotheses and is accepted. -/
+/-- The clauses of `convert_wf`, spelled out (what `wfGraph = true` means: `wfGraph_sound`). -/
+theorem convert_wf_clauses (f : Func) (g : Graph) (h : convert f = .ok g)
+    (hnames : (f.params.map Param.name).Nodup) :
+    g.allDefs.Nodup ∧ wfNodes g.inputs g.nodes = true
+      ∧ (∀ o, o ∈ g.outputs → o ∈ g.inputs ++ topDefs g.nodes) ∧ g.outputs.Nodup
+      ∧ (∀ o, o ∈ g.outputs → o ∉ g.inputs) :=
+  ⟨convert_allDefs_nodup h (tensorParams_nodup hnames), (convert_scoped_ok h).1, (convert_scoped_ok h).2,
+    convert_outputs_nodup h, convert_no_input_returned h⟩
+
+/-- Non-vacuity of `convert_wf`: `demo` (an `if` inside a `for`) has distinct parameter names and is accepted. -/
 example : (demo.params.map Param.name).Nodup ∧ (convert demo).toOption.isSome = true := by
   constructor
   · decide
   · decide +kernel
-
-example : ParamsNotReassigned demo := by
-  intro d hd x hx
-  have : assignedBlock demo.body = some ["i", "x"] := by decide
-  rw [this] at hd
-  cases hd
-  simp only [demo, tensorParams, List.filterMap_cons, List.filterMap_nil, List.mem_cons,
-    List.mem_nil_iff, or_false] at hx
-  rcases hx with rfl | rfl | rfl <;> decide
 
 theorem nodupB_iff (l : List Name) : nodupB l = true ↔ l.Nodup := by
   induction l with
@@ -155,9 +143,18 @@ theorem wfNodes_cons (vis : List Name) (dom name : String) (ins : List (Option N
   subst hn
   simpa [optIn] using this
 
-/-- **The full well-formedness statement is false for the code as it is** (finding C01-D26): for
-`def f(A): B = A; A = op.Neg(A); return B` the converter — looking the ONNX name `A` up as a Python
-name — skips the Identity copy and returns the graph input itself. -/
+/-- What the scoped check says about an `If` node: its condition is visible, both branches are well scoped,
+their outputs are produced inside them and are **pairwise distinct**. -/
+theorem wfNode_if_clauses (vis : List Name) (c : Name) (outs : List Name) (tn : List Node) (to : List Name)
+    (en : List Node) (eo : List Name) (h : wfNode vis (.ifN c outs tn to en eo) = true) :
+    c ∈ vis ∧ wfNodes vis tn = true ∧ wfNodes vis en = true
+      ∧ (∀ o, o ∈ to → o ∈ topDefs tn) ∧ (∀ o, o ∈ eo → o ∈ topDefs en) ∧ to.Nodup ∧ eo.Nodup := by
+  simp only [wfNode, Bool.and_eq_true, List.contains_iff_mem] at h
+  obtain ⟨⟨⟨⟨⟨⟨⟨⟨h1, h2⟩, h3⟩, h4⟩, h5⟩, _⟩, _⟩, h8⟩, h9⟩ := h
+  exact ⟨h1, h2, h4, (allIn_iff _ _).mp h3, (allIn_iff _ _).mp h5, (nodupB_iff _).mp h8, (nodupB_iff _).mp h9⟩
+
+/-- Regression witness of finding C01-D26 (fixed by 3b56caa): `def f(A): B = A; A = op.Neg(A); return B`.
+The returned alias of the input is now copied through `Identity`. -/
 def d26 : Func :=
   { name := "f", params := [.tensor "A"], retCount := none,
     body := [
@@ -165,21 +162,12 @@ def d26 : Func :=
       .assign "A" (.call "" "Neg" { known := true, variadic := false, homog := true, tvs := [some "T"] } [.var "A"] []),
       .ret [.var "B"] false] }
 
-theorem convert_wf_full_refuted :
-    ¬ (∀ f g, convert f = .ok g → (tensorParams f.params).Nodup → wfGraph g = true) := by
-  intro h
-  have key : (match convert d26 with
-      | .ok g => !wfGraph g && g.outputs == ["A"] && g.inputs == ["A"]
-      | .error _ => false) = true := by decide +kernel
-  cases hc : convert d26 with
-  | error e => rw [hc] at key; cases key
-  | ok g =>
-    rw [hc] at key
-    have hw := h d26 g hc (by decide)
-    simp [hw] at key
+example : (match convert d26 with
+    | .ok g => wfGraph g && g.outputs == ["return_val"] && g.inputs == ["A"]
+    | .error _ => false) = true := by decide +kernel
 
-/-- Finding C01-D30: distinctness of *subgraph* outputs fails: `if c: x = Neg(A); z = x  else: …` with `x`
-and `z` both live makes the then-branch list the same value twice. -/
+/-- Regression witness of finding C01-D30 (fixed by cbb81e7): `if c: x = Neg(A); z = x  else: …` with `x` and
+`z` both live.  The then-branch now lists two distinct outputs (the second is an `Identity` copy). -/
 def d30 : Func :=
   { name := "f", params := [.tensor "A", .tensor "c"], retCount := none,
     body := [
@@ -195,16 +183,9 @@ def thenOutsOfFirstIf : List Node → List Name
   | _ :: rest => thenOutsOfFirstIf rest
   | [] => []
 
-theorem subgraph_outputs_distinct_refuted :
-    ∃ g, convert d30 = .ok g ∧ thenOutsOfFirstIf g.nodes = ["x", "x"] := by
-  have key : (match convert d30 with
-      | .ok g => thenOutsOfFirstIf g.nodes == ["x", "x"]
-      | .error _ => false) = true := by decide +kernel
-  cases hc : convert d30 with
-  | error e => rw [hc] at key; cases key
-  | ok g =>
-    rw [hc] at key
-    exact ⟨g, rfl, by simpa using key⟩
+example : (match convert d30 with
+    | .ok g => wfGraph g && thenOutsOfFirstIf g.nodes == ["x", "z"]
+    | .error _ => false) = true := by decide +kernel
 
 /-- Finding D19, the decision that causes it, in isolation: `_translate_function_signature_common` adds a
 nested function's parameter names to `_used_vars` and uses them as the subgraph's input names *without*
